@@ -82,9 +82,14 @@ class LazyModuleEnv(Env):
                 self._index(s)
 
     def lazy_has(self, name):
+        if name in getattr(self, 'overrides', {}):
+            return True
         return name in self.defs and name not in self.busy
 
     def lazy_get(self, name):
+        # the contract's assumed externals replace the module-level names also inside inlined callees
+        if name in getattr(self, 'overrides', {}):
+            return self.overrides[name]
         if name in self.vars:
             return self.vars[name]
         if name in self.defs and name not in self.busy:
@@ -311,6 +316,8 @@ def verify(contract, all_contracts=(), timeout_ms=10000, mutate=None, negate_pos
             eng.inputs.update(cx.extra_inputs)
             spec_globals = Env(menv, dict(contract.spec_env))
             spec_globals.vars.update(cx.spec_env)
+            if isinstance(menv, LazyModuleEnv):
+                menv.overrides = dict(spec_globals.vars)
             for sn, ssrc in contract.spec_defs.items():
                 spec_globals.vars[sn] = eng.eval_spec(ssrc, spec_globals)
             define_recs(eng, contract.spec_recs, spec_globals)
